@@ -55,8 +55,13 @@ def delay_with_mapper_(
                     observer.on_completed()
 
             subscription = SerialDisposable()
+            started = [False]
 
             def start():
+                if started[0]:
+                    return
+                started[0] = True
+
                 def on_next(x: _T) -> None:
                     try:
                         assert mapper
@@ -101,7 +106,11 @@ def delay_with_mapper_(
             if not sub_delay:
                 start()
             else:
-                subscription.disposable = sub_delay.subscribe(
+                # the holder goes in first: a subscription delay that fires inside
+                # subscribe() has already replaced it by the source subscription
+                sad = SingleAssignmentDisposable()
+                subscription.disposable = sad
+                sad.disposable = sub_delay.subscribe(
                     lambda _: start(), observer.on_error, start, scheduler=scheduler
                 )
 
